@@ -13,6 +13,7 @@ import (
 	"github.com/ontio/ontology/account"
 	"github.com/ontio/ontology/common"
 	"github.com/ontio/ontology/core/signature"
+	"github.com/ontio/ontology/core/store"
 	"github.com/ontio/ontology/core/types"
 )
 
@@ -95,4 +96,18 @@ func RawDigest(dir string) (string, error) {
 		return nil
 	})
 	return hex.EncodeToString(h.Sum(nil))[:16], err
+}
+
+// ExecutePhase and SubmitPhase are the two phases of Add as the consensus services use them: ExecuteBlock returns the execution result
+// (write set, state root, notifications) and SubmitBlock persists it later; other calls may happen in between.
+func (k *Kit) ExecutePhase(blk *types.Block) (store.ExecuteResult, error) {
+	return k.Ledger.ExecuteBlock(blk)
+}
+
+func (k *Kit) SubmitPhase(blk *types.Block, res store.ExecuteResult) error {
+	if err := k.Ledger.SubmitBlock(blk, nil, res); err != nil {
+		return err
+	}
+	k.Time = blk.Header.Timestamp
+	return nil
 }
